@@ -415,6 +415,41 @@ def canon(r):
     return describe(r)
 
 
+def legal_prelude():
+    """A history of perfectly legal operations on objects handed out by the library's own factories and on throw-away
+    objects (in-place moves, coordinate assignment).  Every worker runs it before its scenes: nothing of it may leak into
+    objects constructed later (shared singletons, module-level caches, aliased support points)."""
+    from Geometry3D import origin, x_unit_vector, y_unit_vector, z_unit_vector, x_axis, y_axis, z_axis, xy_plane, yz_plane, xz_plane
+    z = Vector.zero()
+    Line(z, Vector(0.0, 0.0, 1.0)).move(Vector(1.0, 0.0, 0.0))        # Line(Vector, Vector) keeps and shifts its support vector
+    z2 = Vector.zero()
+    z2[1] = 3.0
+    o = origin()
+    o.move(Vector(0.0, 1.0, 0.0))
+    Line(origin(), Vector(1.0, 1.0, 0.0)).move(Vector(0.0, 0.0, 2.0))
+    u = x_unit_vector()
+    u[1] = 5.0
+    for w in (y_unit_vector(), z_unit_vector()):
+        w[0] = -1.0
+    for ax, t in ((x_axis(), (0.0, 0.0, 1.0)), (y_axis(), (1.0, 0.0, 0.0)), (z_axis(), (0.0, 2.0, 0.0))):
+        ax.move(Vector(*t))
+    for pl, t in ((xy_plane(), (0.0, 0.0, 1.0)), (yz_plane(), (2.0, 0.0, 0.0)), (xz_plane(), (0.0, -1.0, 0.0))):
+        pl.move(Vector(*t))
+    # general-form planes through the origin, moved off it
+    Plane(0.0, 0.0, 1.0, 0.0).move(Vector(0.0, 0.0, 1.0))
+    Plane(1.0, 0.0, 0.0, 0.0).move(Vector(1.0, 0.0, 0.0))
+    Plane(1.0, -1.0, 2.0, 0.0).move(Vector(0.0, 1.0, 0.0))
+    Plane(0, 1, 0, 0).move(Vector(0, 1, 0))
+    v = Vector(1.0, 2.0, 2.0)
+    v.length(), v.normalized(), hash(v)
+    v[0] = 0.0
+    v.length()
+    G.set_eps(1e-6)
+    G.set_eps()
+    G.set_sig_figures()
+    assert_default_tolerance()
+
+
 def use_point_elsewhere(pt):
     """legal earlier uses of a caller-owned Point: lines built from it are moved, it is hashed and read.
     Constructors that take Points must not let any of this leak back into the Point."""
